@@ -205,13 +205,14 @@ invgen.ARG_DOMAIN["spin(uint256)"] = list(range(0, 7))
 invgen.ARG_DOMAIN["spind(uint256)"] = list(range(0, 7))
 
 
-def check_invariant(acc, fns, loop, depth, order=(1, 2, 3, 4, 5), width=0):
+def check_invariant(acc, fns, loop, depth, order=(1, 2, 3, 4, 5), width=0, rel="ne"):
     # `order`: the invariant test that runs first computes the frontier (and is the one whose warning is easiest to lose)
-    desc = {"targets": [fns], "invariants": [[0, "s", "ne", k] for k in order], "filters": None}
+    # rel "loopne": the loop is in the invariant body itself (run once per frontier state: a cut in any of them must be reported)
+    desc = {"targets": [fns], "invariants": [[0, "s", rel, k] for k in order], "filters": None}
     P = invgen.Project(desc)
     sigs = P.invariant_sigs()
-    name = f"inv:{fns}:loop={loop}:depth={depth}:first={order[0]}" + (f":width={width}" if width else "")
-    case = {"kind": "inv", "fns": fns, "loop": loop, "depth": depth, "order": list(order), "width": width}
+    name = f"inv:{fns}:loop={loop}:depth={depth}:first={order[0]}" + (f":width={width}" if width else "") + (f":{rel}" if rel != "ne" else "")
+    case = {"kind": "inv", "fns": fns, "loop": loop, "depth": depth, "order": list(order), "width": width, "rel": rel}
     opts = {"invariant_depth": depth, "loop": loop, "solver_timeout_assertion": "10s"}
     if width:
         opts["width"] = width  # the path limit of one test must not silently shrink the frontier the next test starts from
@@ -401,6 +402,11 @@ def shards(tier, seed):
             for depth in ((1, 2) if tier == "quick" else (1, 2, 3)):
                 out.append({"kind": "inv", "fns": fns, "loop": loop, "depth": depth})
                 out.append({"kind": "inv", "fns": fns, "loop": loop, "depth": depth, "order": [5, 4, 3, 2, 1]})
+    # a loop on the stored value inside the invariant body; the state explored last has a concrete value (no cut there)
+    for fns in (["set", "chk"], ["chk", "set"], ["set", "inc"], ["set"], ["setw", "chk"]):
+        for loop in (2, 3):
+            for depth in (1, 2):
+                out.append({"kind": "inv", "fns": fns, "loop": loop, "depth": depth, "rel": "loopne", "order": [5, 4]})
     for N in (0, 3, 5):
         for loop in (1, 2, 3):
             out.append({"kind": "setup", "N": N, "loop": loop})
@@ -422,7 +428,7 @@ def run_case(acc, s):
     elif k == "same":
         check_same_signature(acc, s["config"])
     elif k == "inv":
-        check_invariant(acc, s["fns"], s["loop"], s["depth"], tuple(s.get("order", (1, 2, 3, 4, 5))), s.get("width", 0))
+        check_invariant(acc, s["fns"], s["loop"], s["depth"], tuple(s.get("order", (1, 2, 3, 4, 5))), s.get("width", 0), s.get("rel", "ne"))
     elif k == "setup":
         check_setup(acc, s["N"], s["loop"])
     elif k == "invwidth":
